@@ -179,7 +179,11 @@ pub fn build_ops(cfg: &Cfg, s: &HistSpec) -> Vec<Op> {
             vi += 1;
         } else {
             let t = first_vpts + s.audio_lead + ai as f64 * 1024.0 / 48000.0;
-            let (data, _) = audio_frame(acodec.expect("audio op without audio config"), 0x40 + ai as u32, size_of(s.asize_pattern, ai) + 1);
+            let ac = acodec.expect("audio op without audio config");
+            // under the default size pattern the second Opus packet is the shortest legal one (a
+            // lone TOC byte or TOC + count byte); ADTS has no counterpart (a header-only frame is invalid)
+            let alen = if !ac.is_aac() && s.asize_pattern == 0 && ai == 1 { 0 } else { size_of(s.asize_pattern, ai) + 1 };
+            let (data, _) = audio_frame(ac, 0x40 + ai as u32, alen);
             ops.push(Op::WA { pts: T(t), data: Bytes::new(data) });
             ai += 1;
         }
